@@ -7,9 +7,11 @@
 //! Exit codes: 0 property held on everything explored; 1 violation(s) (a line
 //! "VIOLATION property=<id> replay=<path>" each); 2 harness error.
 
+#[cfg(feature = "keyring")]
 #[path = "/repo/src/cli/src/errors.rs"]
 #[allow(dead_code)]
 mod errors;
+#[cfg(feature = "keyring")]
 #[path = "/repo/src/cli/src/keyring.rs"]
 #[allow(dead_code)]
 mod keyring;
@@ -42,7 +44,19 @@ pub fn root() -> String {
 }
 
 pub fn families() -> Vec<Box<dyn DynFamily>> {
-    vec![Box::new(fam::a1::A1 { pass_only: false }), Box::new(fam::a1::A1 { pass_only: true }), Box::new(fam::a2::A2), Box::new(fam::a3::A3), Box::new(fam::a4::A4), Box::new(fam::a5::A5), Box::new(fam::a6::A6), Box::new(fam::a7::A7), Box::new(fam::a8::A8), Box::new(fam::a9::A9 { locked: true }), Box::new(fam::a9::A9 { locked: false }), Box::new(fam::b1::B1), Box::new(fam::b2::B2), Box::new(fam::b3::B3), Box::new(fam::b4::B4), Box::new(fam::b5::B5), Box::new(fam::b6::B6), Box::new(fam::b7::B7), Box::new(fam::g0::G0)]
+    #[allow(unused_mut)]
+    let mut v: Vec<Box<dyn DynFamily>> = vec![Box::new(fam::a1::A1 { pass_only: false }), Box::new(fam::a1::A1 { pass_only: true }), Box::new(fam::a2::A2), Box::new(fam::a3::A3), Box::new(fam::a4::A4), Box::new(fam::a6::A6), Box::new(fam::a7::A7), Box::new(fam::a8::A8), Box::new(fam::b1::B1), Box::new(fam::b2::B2), Box::new(fam::b3::B3), Box::new(fam::b4::B4), Box::new(fam::b5::B5), Box::new(fam::b6::B6), Box::new(fam::b7::B7), Box::new(fam::g0::G0)];
+    #[cfg(feature = "keyring")]
+    {
+        let k: Vec<Box<dyn DynFamily>> = vec![Box::new(fam::a5::A5), Box::new(fam::a9::A9 { locked: true }), Box::new(fam::a9::A9 { locked: false })];
+        v.extend(k);
+    }
+    v
+}
+
+/// (family, properties) that exist only in a build with the `keyring` feature
+pub fn keyring_families() -> Vec<(&'static str, &'static [&'static str])> {
+    vec![("a5", &["C07"]), ("a9l", &["C15", "C09"]), ("a9k", &["C17", "C09"])]
 }
 
 fn level_of(prop: &str) -> &'static str {
@@ -131,7 +145,11 @@ fn cmd_check(args: &[String]) -> i32 {
         .filter(|f| only_family.as_deref().map(|n| n == f.name()).unwrap_or(true))
         .collect();
     if fams.is_empty() {
-        eprintln!("harness error: no family has an oracle for {}", prop);
+        if !cfg!(feature = "keyring") && keyring_families().iter().any(|(_, ps)| ps.contains(&prop.as_str())) {
+            eprintln!("harness error: {} is decided only by families that compile /repo/src/cli/src/keyring.rs into the simulator, and that no longer builds (see build/ksim-build.log)", prop);
+        } else {
+            eprintln!("harness error: no family has an oracle for {}", prop);
+        }
         return 2;
     }
     engine::start_watchdog(prop.clone(), if tier == Tier::Quick { 300 } else { 900 }, root(), seed);
@@ -339,6 +357,16 @@ fn cmd_check(args: &[String]) -> i32 {
     if evaluations == 0 {
         eprintln!("harness error: nothing was executed");
         return 2;
+    }
+    if !cfg!(feature = "keyring") {
+        let missing: Vec<&str> = keyring_families().iter().filter(|(_, ps)| ps.contains(&prop.as_str())).map(|(n, _)| *n).collect();
+        if !missing.is_empty() {
+            println!("warning: families {:?} of this check compile /repo/src/cli/src/keyring.rs into the simulator and that no longer builds (see build/ksim-build.log); they were NOT run", missing);
+            if n_viol == 0 {
+                eprintln!("harness error: {} cannot be decided: families {:?} are unavailable in this reduced build", prop, missing);
+                return 2;
+            }
+        }
     }
     if !determinism_failures.is_empty() {
         for d in &determinism_failures {
